@@ -24,6 +24,14 @@ Theorem C04_simulates_binary :
     accepts K V cmp eqv (empty_bags sizes) ops (run K V cmp eqv Binary sizes ops).
 Proof. intros K V cmp eqv TO. exact (binary_simulates cmp eqv TO). Qed.
 
+(** Binomial heap: every history on a pool of heaps, including [Merge] (multiset union). *)
+Theorem C04_simulates_binomial :
+  forall (K V : Type) (cmp : K -> K -> Z) (eqv : V -> V -> bool), TotalOrder K cmp ->
+  forall (sizes : list nat) (ops : list (hop K V)),
+    well_scoped K V true (all_live sizes) ops = true ->
+    accepts K V cmp eqv (empty_bags sizes) ops (run K V cmp eqv Binomial sizes ops).
+Proof. intros K V cmp eqv TO. exact (binomial_simulates cmp eqv TO). Qed.
+
 (** The max orientation is an instance: the reversed comparator is a total order again. *)
 Theorem C04_reverse_comparator :
   forall (K : Type) (cmp : K -> K -> Z), TotalOrder K cmp -> TotalOrder K (fun a b => cmp b a).
@@ -46,5 +54,6 @@ Example C04_example :
 Proof. vm_compute. reflexivity. Qed.
 
 Print Assumptions C04_simulates_binary.
+Print Assumptions C04_simulates_binomial.
 Print Assumptions C04_reverse_comparator.
 Print Assumptions C04_acceptor_sound.
